@@ -96,8 +96,11 @@ mkarraytype(struct type *base, enum typequal qual, unsigned long long len)
 static int
 typerank(struct type *t)
 {
-	if (t->kind == TYPEENUM)
+	if (t->kind == TYPEENUM) {
+		if (!t->base)
+			error(&tok.loc, "value of incomplete enum type used");
 		t = t->base;
+	}
 	assert(t->prop & PROPINT);
 	switch (t->kind) {
 	case TYPEBOOL:  return 1;
